@@ -38,7 +38,7 @@
 
 static vf_tree T; static cJSON *parent, *x; static unsigned n; static cJSON *kid[K + 2];
 static cJSON *expect[K + 3]; static unsigned nexp;
-static char const_xkey[TS + 1]; static char const_key_arg[TS + 1]; static cJSON *extra;   /* a detached item handed back to the caller */
+static char const_xkey[TS + 1]; static char const_key_arg[TS + 1]; static char ref_buf[TS + 1]; static cJSON *extra;   /* a detached item handed back to the caller */
 
 #define INJECTED (vf_fail_at != 0 && vf_nreq >= vf_fail_at)      /* the refused request was actually reached */
 static int lower(int c) { return (c >= 'A' && c <= 'Z') ? c + 32 : c; }
@@ -73,6 +73,7 @@ static cJSON *make_x(void)
     switch (IN.xkind % 4) { case 0: kind = cJSON_Number; it->valueint = 7; it->valuedouble = 7; break; case 1: kind = cJSON_Array; break; case 2: kind = cJSON_Object; break;
         default: kind = cJSON_String; { char *s = (char *)vf_own(TS + 1); memcpy(s, IN.xstr, TS); s[TS] = 0; it->valuestring = s; } break; }
     it->type = kind;
+    if (OP == 19 && kind == cJSON_String && (IN.xkeymode & 8)) { vf_free(it->valuestring); memcpy(ref_buf, IN.xstr, TS); ref_buf[TS] = 0; it->valuestring = ref_buf; it->type |= cJSON_IsReference; }   /* a string reference: borrowed text */
     if ((IN.xkeymode % 3) == 1) { char *k = (char *)vf_own(TS + 1); memcpy(k, IN.xkey, TS); k[TS] = 0; it->string = k; }
     else if ((IN.xkeymode % 3) == 2) { memcpy(const_xkey, IN.xkey, TS); const_xkey[TS] = 0; it->string = const_xkey; it->type |= cJSON_StringIsConst; }
     return it;
@@ -149,7 +150,10 @@ int main(VF_MAIN_ARGS)
     }
 #elif OP == 4 || OP == 5    /* cJSON_AddItemReferenceToArray / ToObject */
     {
-        cJSON *tgt = ((IN.mode % 3) == 1) ? 0 : x; const char *key = key_arg(0, 0); cJSON_bool r; cJSON *p = ((IN.mode % 3) == 2) ? 0 : parent; cJSON *ref;
+        cJSON *tgt = ((IN.mode % 3) == 1) ? 0 : x; const char *key = key_arg(0, 0); cJSON_bool r; cJSON *p = ((IN.mode % 3) == 2) ? 0 : parent; cJSON *ref; cJSON tsnap;
+        /* the referenced item may itself be a member of a container (here: a child of the same parent, with siblings behind it) */
+        if (tgt && (IN.variant & 1) && n > 0) tgt = kid[IN.idx % n];
+        if (tgt) tsnap = *tgt;
         memcpy(keycopy, key, TS + 1);
 #if OP == 4
         r = cJSON_AddItemReferenceToArray(p, tgt);
@@ -160,18 +164,19 @@ int main(VF_MAIN_ARGS)
             VF_AP(6, (IN.mode % 3) == 0, "C06 reference add succeeds only with valid arguments");
             for (ref = parent->child, i = 0; ref && ref->next && i < K + 1; ref = ref->next) i++;
             expect_append(ref);
-            VF_AP(7, ref != 0 && ref != x && (ref->type & cJSON_IsReference) && (ref->type & 0xFF) == (xtype0 & 0xFF), "C07 a new node flagged as reference is appended");
-            VF_AP(7, ref->child == x->child && ref->valuestring == x->valuestring, "C07 the reference borrows the target's payload");
+            VF_AP(7, ref != 0 && ref != tgt && (ref->type & cJSON_IsReference) && (ref->type & 0xFF) == (tsnap.type & 0xFF), "C07 a new node flagged as reference is appended");
+            VF_AP(7, ref->child == tgt->child && ref->valuestring == tgt->valuestring, "C07 the reference borrows the target's payload");
 #if OP == 5
-            VF_AP(7, ref->string != 0 && ref->string != key && ref->string != x->string && eq_cs(ref->string, keycopy) && !(ref->type & cJSON_StringIsConst), "C07 the reference owns a copy of the key");
+            VF_AP(7, ref->string != 0 && ref->string != key && ref->string != tgt->string && eq_cs(ref->string, keycopy) && !(ref->type & cJSON_StringIsConst), "C07 the reference owns a copy of the key");
 #else
             VF_AP(7, ref->string == 0, "C07 the reference does not share the target's key");
 #endif
-            VF_AP(7, x->string == xstring0 && x->type == xtype0 && x->next == 0 && x->prev == 0, "C07 the referenced item is untouched");
+            VF_AP(7, tgt->string == tsnap.string && tgt->type == tsnap.type && tgt->child == tsnap.child && tgt->valuestring == tsnap.valuestring && (tgt != x || (tgt->next == 0 && tgt->prev == 0)), "C07 the referenced item is untouched (only the sibling links of a member of the same container may change)");
             VF_WITNESS("ok");
         } else {
             if ((IN.mode % 3) == 0) VF_AP(8, INJECTED, "C08 failure only after a refused allocation");
-            VF_AP(8, vf_live == live0, "C08 failed reference add leaves nothing allocated");
+            VF_AP(8, vf_live == live0, "C08 failed reference add leaves nothing allocated and releases nothing that existed before");
+            if (tgt) VF_AP(8, tgt->string == tsnap.string && tgt->type == tsnap.type && tgt->next == tsnap.next && tgt->prev == tsnap.prev, "C08 failed reference add leaves the referenced item and its siblings alone");
         }
     }
 #elif OP == 6    /* cJSON_InsertItemInArray */
@@ -277,7 +282,8 @@ int main(VF_MAIN_ARGS)
             char *old = x->valuestring; size_t oldlen = old ? vf_blen((unsigned char *)old) : 0, newlen, j; char newv[TS + 3]; char *r; int isstr = ((x->type & 0xFF) == cJSON_String);
             memcpy(newv, IN.nstr, TS + 2); newv[TS + 2] = 0; newlen = strlen(newv); (void)j;
             r = cJSON_SetValuestring(x, (IN.mode & 1) ? (char *)0 : newv);
-            if (!isstr || (IN.mode & 1)) VF_AP(6, r == 0 && x->valuestring == old, "C06 set string is refused for non-strings and NULL");
+            if (x->type & cJSON_IsReference) { VF_AP(7, r == 0 && x->valuestring == ref_buf && memcmp(ref_buf, IN.xstr, TS) == 0 && ref_buf[TS] == 0, "C07 set string refuses string references and never writes into borrowed text"); }
+            else if (!isstr || (IN.mode & 1)) VF_AP(6, r == 0 && x->valuestring == old, "C06 set string is refused for non-strings and NULL");
             else if (r == 0 && newlen <= oldlen) { /* in-place path refused by the overlap guard: it orders pointers into different objects, which C leaves undefined and CBMC resolves arbitrarily - not asserted */ }
             else if (r == 0) { VF_AP(8, INJECTED, "C08 set string fails only when the copy was refused"); VF_AP(8, x->valuestring == old && vf_live == live0, "C08 failed set string keeps the old value"); }
             else { VF_AP(6, r == x->valuestring && strcmp(r, newv) == 0, "C06 set string stores the new text"); VF_AP(7, (newlen <= oldlen) == (r == old), "C07 shorter text is copied in place, longer text into a fresh block"); VF_AP(7, vf_live == live0, "C07 old block released when replaced"); VF_WITNESS("ok"); }
